@@ -35,7 +35,10 @@ pub open spec fn has_prefix(s: Seq<char>, p: Seq<char>) -> bool {
 pub assume_specification<P: core::str::pattern::Pattern>[ str::starts_with::<P> ](s: &str, pat: P) -> (r: bool)
     ensures r == has_prefix(s@, pat_view(pat));
 
-pub assume_specification[ str::to_lowercase ](s: &str) -> (r: String);
+// Unicode lower-casing: an uninterpreted function of the text
+pub uninterp spec fn spec_lower(s: Seq<char>) -> Seq<char>;
+pub assume_specification[ str::to_lowercase ](s: &str) -> (r: String)
+    ensures r@ == spec_lower(s@);
 
 // ASCII lower-casing: an uninterpreted function of the text (the contracts only compare its result with literals)
 pub uninterp spec fn spec_ascii_lower(s: Seq<char>) -> Seq<char>;
